@@ -74,7 +74,12 @@ Definition peek_n (cap n : nat) (s : sc) : res (bytes * option cls * sc) :=
     | Ok (err, s') =>
       if used s' <? pos s' + n then
         if used s' <? pos s' then Err Panic      (* s.buf[s.pos:s.used] *)
-        else Ok (skipn (pos s') (buf s'), err, s')
+        else
+          (* a refill that got data together with a read error latches the
+             error and reports success; if the data is still too short, the
+             latched error is the reason, not the end of the input *)
+          let err' := match err with None => latch s' | e => e end in
+          Ok (skipn (pos s') (buf s'), err', s')
       else Ok (firstn n (skipn (pos s') (buf s')), None, s')
     end
   else Ok (firstn n (skipn (pos s) (buf s)), None, s).
